@@ -48,15 +48,16 @@ type Ctx struct {
 	Prop   string
 	Tier   string
 	Config string
+	Arch32 bool
 
-	obs      []*Obligation
-	rules    map[string]*RuleDoc
-	ruleOrd  []string
-	notes    []string
-	assume   []string
-	fnsSeen  map[string]bool
-	nCalls   int
-	blind    []string
+	obs     []*Obligation
+	rules   map[string]*RuleDoc
+	ruleOrd []string
+	notes   []string
+	assume  []string
+	fnsSeen map[string]bool
+	nCalls  int
+	blind   []string
 }
 
 func NewCtx(p *Program, prop, tier, config string) *Ctx {
@@ -348,7 +349,7 @@ func finish(verifDir string, prop *PropertySpec, tier string, seed int, rr *runR
 	}
 	ev := evidence{PropertyID: prop.ID, Tier: tier, Seed: seed, Level: "other", Coverage: cov,
 		Assumptions: append([]string{"third-party code (websocket, quic, JSON libraries, reflection, mapset) behaves as documented", "the analysed build configuration(s): " + strings.Join(rr.configs, "; ")}, rr.assume...),
-		WallS: time.Since(started).Seconds(), Violations: nViol}
+		WallS:       time.Since(started).Seconds(), Violations: nViol}
 	b, _ := json.MarshalIndent(ev, "", " ")
 	os.MkdirAll(filepath.Join(verifDir, "evidence"), 0o755)
 	if err := os.WriteFile(filepath.Join(verifDir, "evidence", prop.ID+".json"), b, 0o644); err != nil {
